@@ -127,6 +127,8 @@ pub struct Base {
     pub vb: [i64; 4],
     /// Deterministic signature cache: (key debug string, variant) -> signature bytes.
     pub sig_cache: Mutex<BTreeMap<(String, u8), Vec<u8>>>,
+    /// Observed inventory: does removing this key (Debug form) change the base's bytes?
+    pub has_cache: Mutex<BTreeMap<String, bool>>,
     // item counts as present in the PCZT (after padding)
     pub n_tin: usize,
     pub n_tout: usize,
@@ -134,7 +136,6 @@ pub struct Base {
     pub n_sout: usize,
     pub n_oact: usize,
     pub n_iact: usize,
-    pub build_ms: u64,
 }
 
 fn rnd(rng: &mut ChaCha20Rng, n: u64) -> u64 {
@@ -771,7 +772,6 @@ pub fn txid_from_parts(parts: &PcztParts<LocalNetwork>) -> (TxId, [u8; 32], Vec<
 }
 
 pub fn build_base(seed: u64, idx: u32) -> Result<Base, String> {
-    let t0 = std::time::Instant::now();
     let mut st = blake2b_simd::Params::new().hash_length(32).to_state();
     st.update(b"C13-base");
     st.update(&seed.to_le_bytes());
@@ -908,6 +908,7 @@ pub fn build_base(seed: u64, idx: u32) -> Result<Base, String> {
         p2sh: plan.t_ins.iter().map(|t| t.p2sh).collect(),
         vb,
         sig_cache: Mutex::new(BTreeMap::new()),
+        has_cache: Mutex::new(BTreeMap::new()),
         n_tin: pczt.transparent().inputs().len(),
         n_tout: pczt.transparent().outputs().len(),
         n_sspend: pczt.sapling().spends().len(),
@@ -920,7 +921,6 @@ pub fn build_base(seed: u64, idx: u32) -> Result<Base, String> {
         txid_parts,
         sighash_parts,
         t_sighash_parts,
-        build_ms: t0.elapsed().as_millis() as u64,
     })
 }
 
